@@ -275,6 +275,13 @@ class C03Unit(object):
                 if isinstance(node, ast.If) and any(ast.unparse(b) == 'serverCertChain = cert_chain' for b in node.body):
                     return 'dheDsaSuites' in ast.unparse(node.test)
             raise Refuse('_handshakeServerAsyncHelper: `serverCertChain = cert_chain` not found')
+        def psk_prf_only_tls13():
+            # the `if` that narrows the server's suites by the PRF of a matching PSK (_server_select_certificate)
+            f = find_func(conn_tree, 'TLSConnection', '_server_select_certificate')
+            for node in ast.walk(f):
+                if isinstance(node, ast.If) and 'pskConfigs' in ast.unparse(node.test) and 'filter_for_prfs' in ast.unparse(node):
+                    return 'version' in ast.unparse(node.test)
+            raise Refuse('_server_select_certificate: PSK PRF narrowing not found')
         cke = src('_clientKeyExchange')
         return [
             ('fix_dh_size', 'dhGroupSize' in cke and 'settings.minKeySize' in cke),
@@ -290,6 +297,8 @@ class C03Unit(object):
             ('fix_req_ems_tls13', ems_test_mentions_13()),
             ('fix_sigalg_assert', 'assert sig_list' not in src('_clientSendClientHello')),
             ('fix_dhe_dsa_chain', server_chain_covers_dsa()),
+            ('fix_psk_prf_tls13_only', psk_prf_only_tls13()),
+            ('fix_cert_type_vs_suite', '.certAlg' in cke and 'ecdheEcdsaSuites' in cke),
         ]
 
     # ---------------------------------------------------------------- main
